@@ -49,3 +49,12 @@ class Ctx(object):
     def need_no_reflection(self, rule):
         if self.reflection:
             raise AnalysisError(rule, "closed-world precondition fails: " + "; ".join(self.reflection))
+
+
+def terms(ctx):
+    from .terms import Terms
+    t = getattr(ctx, "_terms", None)
+    if t is None:
+        t = Terms(ctx)
+        ctx._terms = t
+    return t
